@@ -80,7 +80,7 @@ def _trav(pid, what, extra=""):
 
 
 CHECKS.update({
-    "C01": _trav("C01", "Monitor: at every start, each required non-root state of a non-permanent object is in the worker's own pool or in a pool the test is instructed and permitted to read, unless its producer (or the object's creation) was attempted in this run and did not pass; evaluated on the store model."),
+    "C01": _trav("C01", "Monitor: at every start, each required non-root state of a non-permanent object is in the worker's own pool or in a pool the test is instructed and permitted to read, unless its producer (or the object's creation) was attempted in this run and did not pass; evaluated on the store model; in the 'composed' plans the same question is answered by the real states.setup.get_states running over the real SourcedStateBackend/RootSourcedStateBackend with the parameters the traversal handed to the test (only the storage is the model), and the agreement of both oracles is counted in the evidence."),
     "C02": _trav("C02", "Monitor: every coroutine returns without exception, no livelock (all live workers backing off with nobody running) and no step-bound overrun; every selected compatible test was executed and no result is left UNKNOWN; a dry run executes nothing and makes no state request. Outcomes include 'never reported'."),
     "C03": _trav("C03", "Monitor: executions grouped by worker-invariant name and reuse scope (global / per swarm / per worker from pool_scope and spawner) never exceed max(1, max_tries); a setup test whose states were all found at its first examination is not executed in that scope; clone sources and flat tests never execute."),
     "C04": _trav("C04", "Monitor: executions of one test (the two creation steps of an object counted as one) by different workers of a scope overlap at most max_concurrent_tries times; no worker enters between the two creation steps of another. In addition to choice mode, virtual-time plans give every execution a symbolic real duration in (0, test_timeout) and let the solver decide the order of wake-ups (one path = one feasible event order for all durations consistent with it), which covers the back-off budget arithmetic; those plans are capped by time and report exhaustive=false when not completed."),
